@@ -32,6 +32,8 @@ class Trees(object):
             next(g)
         self.cnt = 0
         self.has_multiline = False
+        self.has_exotic_separator = False
+        self.has_nonascii = False
 
     def uid(self):
         self.cnt += 1
@@ -45,6 +47,13 @@ class Trees(object):
             if "\n" in t:
                 self.has_multiline = True
             return Obj(self.uid(), t)
+        if r.random() < 0.08:
+            # one physical line as far as "\n" is concerned, but str.splitlines() would cut it
+            sep = r.choice(["\x0c", "\x0b", "\x1c", "\x1d", "\x1e", "\x85", "\u2028", "\u2029", "\r"])
+            self.has_exotic_separator = True
+            if ord(sep) > 127:
+                self.has_nonascii = True
+            return Obj(self.uid(), "<Obj%sx %d>" % (sep, self.cnt))
         return Obj(self.uid())
 
     def stack(self, depth=0, as_child=False):
@@ -54,9 +63,23 @@ class Trees(object):
         leaf = self.obj() if r.random() < 0.3 else None
         err = None
         q = r.random()
-        if q < 0.2:
+        if q < 0.12:
             try:
                 raise ValueError("err%d" % self.uid())
+            except ValueError as e:
+                err = e
+        elif q < 0.16:
+            # chained: the rendering has blank lines around "The above exception was ..."
+            try:
+                try:
+                    raise KeyError("cause%d" % self.uid())
+                except KeyError as c:
+                    raise ValueError("effect") from c
+            except ValueError as e:
+                err = e
+        elif q < 0.2:
+            try:
+                raise ValueError("first line\n\nthird line %d" % self.uid())
             except ValueError as e:
                 err = e
         elif q < 0.27:
@@ -86,7 +109,8 @@ class Trees(object):
         c = Context(obj=self.obj() if r.random() < 0.8 else None, is_async=r.random() < 0.5,
                     varname=r.choice([None, "v", "a.b", "(x, y)"]),
                     start_line=r.choice([None, 2, 5, 8]) if top else r.choice([None, 2]),
-                    description=r.choice([None, "desc%d(...)" % self.uid()]), hide=r.random() < 0.15)
+                    description=r.choice([None, "desc%d(...)" % self.uid(), "desc\x0c%d\x1d(...)" % self.uid()]),
+                    hide=r.random() < 0.15)
         if depth < self.max_depth and r.random() < 0.4:
             c.inner_stack = self.stack(depth + 1)
             if r.random() < 0.15:
